@@ -53,16 +53,21 @@ def journal_parts(ctx):
             a = P.self_attr(n.func.value, add.self_name)
             if a:
                 mirror = a
-    offset_attr = None
+    # the running end offset: the one attribute add() assigns (the mirror is appended to, not assigned)
+    stored = []
     for n in ast.walk(add.node):
+        tg = []
         if isinstance(n, ast.AugAssign):
-            a = P.self_attr(n.target, add.self_name)
-            if a:
-                offset_attr = a
-        elif isinstance(n, ast.Assign) and isinstance(n.value, ast.BinOp) and isinstance(n.value.op, ast.Add):
-            a = P.self_attr(n.targets[0], add.self_name)
-            if a and any(P.self_attr(x, add.self_name) == a for x in (n.value.left, n.value.right)):
-                offset_attr = a
+            tg = [n.target]
+        elif isinstance(n, ast.Assign):
+            tg = n.targets
+        for t in tg:
+            a = P.self_attr(t, add.self_name)
+            if a and a != mirror and a not in stored:
+                stored.append(a)
+    if len(stored) != 1:
+        raise AnalysisError('running end offset of the file journal not identified (add() assigns %s)' % (stored or 'no attribute'))
+    offset_attr = stored[0]
     parts = {'fj': fj, 'file_attr': file_attr, 'rf': rf, 'publish': publish, 'publish_const': publish_const, 'mirror': mirror, 'offset_attr': offset_attr}
     P.__dict__['_journal_parts'] = parts
     return parts
@@ -102,42 +107,41 @@ def r_write_then_publish(ctx):
                       'add() can return without %s (the entry is acknowledged but not durable)' % ('writing the record' if cfg.exit.id in r1 else 'publishing the new end offset'), instance=inst)
     else:
         ctx.ok(inst, add.loc(), 'normal exit unreachable without both')
-    # offset arithmetic: write at offset O, O += len(data written), publish(O)
+    # offset arithmetic, decided on facts: with E the end offset on entry, the record is written at E, and the value
+    # published -- which is also the in-memory end offset from then on -- is E + len(<written bytes>)
     w = writes[0]
     off = jp['offset_attr']
     inst = 'published offset is the running end offset'
     problems = []
-    if not (len(w.args) >= 2 and P.self_attr(w.args[0], add.self_name) == off):
-        problems.append('the record is written at `%s`, not at the running end offset' % unparse(w.args[0]))
-    data = w.args[1] if len(w.args) >= 2 else None
-    augs = [n for n in ast.walk(add.node) if isinstance(n, ast.AugAssign) and P.self_attr(n.target, add.self_name) == off]
-    for n in ast.walk(add.node):
-        # O = O + len(data) is the same advance
-        if isinstance(n, ast.Assign) and P.self_attr(n.targets[0], add.self_name) == off and isinstance(n.value, ast.BinOp) and isinstance(n.value.op, ast.Add):
-            for a_, b_ in ((n.value.left, n.value.right), (n.value.right, n.value.left)):
-                if P.self_attr(a_, add.self_name) == off:
-                    n2 = ast.AugAssign(target=n.targets[0], op=ast.Add(), value=b_)
-                    ast.copy_location(n2, n)
-                    n2._orig = n
-                    augs.append(n2)
-    if len(augs) != 1 or not isinstance(augs[0].op, ast.Add) or not (isinstance(augs[0].value, ast.Call) and isinstance(augs[0].value.func, ast.Name)
-                                                                     and augs[0].value.func.id == 'len' and data is not None and unparse(augs[0].value.args[0]) == unparse(data)):
-        problems.append('the end offset is not advanced by exactly len(<written bytes>)')
-    else:
-        an = U.node_containing(cfg, getattr(augs[0], '_orig', augs[0])).id
-        if an in cfg.reachable_from(cfg.entry.id, avoid=wn):
-            problems.append('the end offset is advanced before the record is written at it')
-        if any(p in cfg.reachable_from(cfg.entry.id, avoid=[an]) for p in pn):
-            problems.append('the offset is published before it is advanced')
-        # the written bytes are not reassigned between the write and the len()
     p = pubs[0]
-    if not (p.args and P.self_attr(p.args[0], add.self_name) == off):
-        problems.append('publish argument is `%s`, not the running end offset' % (unparse(p.args[0]) if p.args else ''))
+    if len(w.args) < 2 or not p.args:
+        problems.append('record write / publish call without offset and data arguments')
+    else:
+        E = 'end_offset_on_entry'
+        init = frozenset([('eq', ex.tb.term(U.parse_expr('self.%s' % off)), ex.tb.term(U.parse_expr(E)))])
+        res = ex.run(init=init)
+        data = w.args[1]
+        wnode = U.node_containing(cfg, w)
+        pnode = U.node_containing(cfg, p)
+        okw, _ = U.must(ctx, res, wnode.id, ('eq', ex.tb.term(w.args[0]), ex.tb.term(U.parse_expr(E))))
+        if not okw:
+            problems.append('the record is written at `%s`, which is not the end offset the journal had on entry' % unparse(w.args[0]))
+        want = ex.tb.term(U.parse_expr('%s + len(%s)' % (E, unparse(data))))
+        okp, _ = U.must(ctx, res, pnode.id, ('eq', ex.tb.term(p.args[0]), want))
+        if not okp:
+            problems.append('the published value `%s` is not <end offset on entry> + len(<written bytes `%s`>)' % (unparse(p.args[0]), unparse(data)))
+        okm, _ = U.must(ctx, res, pnode.id, ('eq', ex.tb.term(U.parse_expr('self.%s' % off)), ex.tb.term(p.args[0])))
+        if not okm:
+            problems.append('the in-memory end offset differs from the published value `%s` at the publish' % unparse(p.args[0]))
+        later = [n for n in cfg.nodes if n.id in cfg.reachable_from(pnode.id, follow_exc=False) and n.id != pnode.id and n.ast is not None
+                 and ('A:' + off) in ex.eff.of(n)[0]]
+        if later:
+            problems.append('the in-memory end offset is changed again after the publish (`%s`)' % unparse(later[0].ast)[:60])
     ctx.tick()
     if problems:
         ctx.violation('%s.add:offset-arithmetic' % fj.name, add.loc(w), '; '.join(problems), instance=inst)
     else:
-        ctx.ok(inst, add.loc(p), 'write(O, data); O += len(data); publish(O)')
+        ctx.ok(inst, add.loc(p), 'write(E, data); publish(E + len(data)) == in-memory end offset, entailed on every path')
     # mirror
     inst = 'in-memory mirror appended'
     ctx.tick()
@@ -412,13 +416,26 @@ def r_tail_drop(ctx):
         if isinstance(n, ast.Assign) and P.self_attr(n.value, m.self_name) == off and isinstance(n.targets[0], ast.Name):
             local = n.targets[0].id
     ctx.require(local, 'walk-back offset local not found')
-    augs = [n for n in ast.walk(m.node) if isinstance(n, ast.AugAssign) and isinstance(n.target, ast.Name) and n.target.id == local]
+    # every update of the walking offset is a subtraction: `local -= e` or `local = local - e`
+    updates = []
+    other = []
+    for n in ast.walk(m.node):
+        if isinstance(n, ast.AugAssign) and isinstance(n.target, ast.Name) and n.target.id == local:
+            (updates if isinstance(n.op, ast.Sub) else other).append(n)
+        elif isinstance(n, ast.Assign) and any(isinstance(t, ast.Name) and t.id == local for t in n.targets):
+            if P.self_attr(n.value, m.self_name) == off:
+                continue        # the initial copy of the end offset
+            v = n.value
+            if isinstance(v, ast.BinOp) and isinstance(v.op, ast.Sub) and isinstance(v.left, ast.Name) and v.left.id == local:
+                updates.append(n)
+            else:
+                other.append(n)
     inst = 'offset only walks backwards'
     ctx.tick()
-    if augs and all(isinstance(a.op, ast.Sub) for a in augs):
-        ctx.ok(inst, m.loc(augs[0]), '%d update(s), all subtractions' % len(augs))
+    if updates and not other:
+        ctx.ok(inst, m.loc(updates[0]), '%d update(s), all subtractions' % len(updates))
     else:
-        ctx.violation('%s.deleteEntriesFrom:offset-not-monotone' % fj.name, m.loc(), 'the walking offset is not only decreased', instance=inst)
+        ctx.violation('%s.deleteEntriesFrom:offset-not-monotone' % fj.name, m.loc((other or [None])[0]), 'the walking offset is not only decreased', instance=inst)
     # final store + publish on all normal paths
     stores = [U.node_containing(cfg, n).id for n in ast.walk(m.node) if isinstance(n, ast.Assign) and P.self_attr(n.targets[0], m.self_name) == off
               and isinstance(n.value, ast.Name) and n.value.id == local]
